@@ -18,6 +18,11 @@ CHECKS['C15'] = dict(engine='valueworld', design='DESIGN.md section 6, C15',
     note='There is no scheduler or I/O behind this property; what simulation contributes is the history dimension (aliasing created by earlier calls, mutated later). Lists/arrays stored as leaves are shared by design and never mutated by the harness. Trusted: jax pytree registry and jit cache as the environment.',
     technique='deterministic simulation: seeded API-call histories with injected foreign mutations vs birth-snapshot invariant; jit trace-cache histories')
 
+CHECKS['C03'] = dict(engine='nnxworld', design='DESIGN.md section 6, C03',
+    text='Seeded edit/API histories on a heap of NNX object graphs (references to any existing object, so sharing, diamonds, self references and cycles arise on their own) mirrored by a pure-Python graph model; split with generated filters, merge in shuffled state order, state, graphdef, update, pop, clone, iter_graph are compared with the mirror, and after every op the canonical form (types, statics, Variable records, identity classes) and the object identities of every root are compared with the mirror, with gc events in between.',
+    note='No scheduler or I/O exists behind this property; simulation contributes the history dimension (aliasing created by earlier edits), gc instants and identity checks. Plain list/dict/tuple containers are never aliased (NNX treats them as value-like pytrees); pop is not generated for shared Variables or Variables directly inside containers.',
+    technique='deterministic simulation: seeded aliasing/edit histories vs pure-Python graph mirror (canonical form + identity)')
+
 NA = {
   'C02': 'variable tree mirrors module tree: relation between stateless init/apply/lazy_init/bind results on the same arguments; ' + PURE,
   'C06': 'lifted scan/vmap = loop/stack: configuration-space equivalence of a pure function; ' + PURE,
@@ -33,14 +38,15 @@ NA = {
 
 # claimed in DESIGN.md, check not built yet (moved to CHECKS as each engine lands)
 _P = 'planned as a claimed check in DESIGN.md section 6 but its engine is not built yet in this commit; not claimed until it runs'
-PENDING = {p: _P for p in ['C01', 'C03', 'C04', 'C05', 'C09', 'C17', 'C18']}
+PENDING = {p: _P for p in ['C01', 'C04', 'C05', 'C09', 'C17', 'C18']}
 
 ENGINES = [
-  dict(name='kernel', path='sim/kernel.py', serves_properties=['C11', 'C15', 'C20'], kind_free_text='seed -> JSON plan -> event-log digest; worker processes; ddmin shrinker; replay; evidence'),
+  dict(name='kernel', path='sim/kernel.py', serves_properties=['C03', 'C11', 'C15', 'C20'], kind_free_text='seed -> JSON plan -> event-log digest; worker processes; ddmin shrinker; replay; evidence'),
   dict(name='sched', path='sim/sched.py', serves_properties=['C11', 'C20'], kind_free_text='baton-passing deterministic thread scheduler; stand-ins for threading and concurrent.futures.thread'),
   dict(name='disk', path='sim/disk.py', serves_properties=['C11'], kind_free_text='in-memory disk with crash / torn-write / I/O-error injection; stand-ins for os, shutil, open, glob and tensorflow.io.gfile'),
   dict(name='fsworld', path='sim/props/c11.py', serves_properties=['C11'], kind_free_text='checkpoint directory histories with crashes, restarts, retries, sweeps and async saves against a retention-policy model'),
   dict(name='valueworld', path='sim/props/c15.py', serves_properties=['C15'], kind_free_text='FrozenDict / struct dataclass call histories with foreign mutations and jit retrace histories'),
+  dict(name='nnxworld', path='sim/nnxworld.py', serves_properties=['C03'], kind_free_text='heap of NNX object graphs + pure-Python mirror, canonical form, filters, build ops'),
   dict(name='pipeworld', path='sim/props/c20.py', serves_properties=['C20'], kind_free_text='source -> PrefetchIterator / prefetch_to_device -> consumer under the thread scheduler with source fault injection'),
 ]
 
